@@ -6,8 +6,8 @@ import vlib
 def main():
     os.makedirs(vlib.WORK, exist_ok=True)
     rc_all = 0
-    for f in sorted(glob.glob(os.path.join(vlib.ROOT, "checks", "c[0-9]*.py"))):
-        name = os.path.basename(f)[:-3]
+    from checks.registry import CHECKS as _C
+    for name in sorted(p.lower() for p in _C):
         mod = importlib.import_module("checks." + name)
         if hasattr(mod, "gen"):
             ctx = vlib.Ctx("setup-" + name, "quick", 1)
@@ -20,8 +20,7 @@ def main():
     print(out[-3000:])
     print("setup: lake build rc=%d (%.0fs)" % (rc, dt))
     rc_all |= rc
-    for f in sorted(glob.glob(os.path.join(vlib.ROOT, "checks", "c[0-9]*.py"))):
-        name = os.path.basename(f)[:-3]
+    for name in sorted(p.lower() for p in _C):
         mod = importlib.import_module("checks." + name)
         if hasattr(mod, "warm"):
             ctx = vlib.Ctx("setup-" + name, "quick", 1)
